@@ -17,6 +17,7 @@ func init() {
 	vRegister("VerifHarness_C12_LineLocality", VerifHarness_C12_LineLocality)
 	vRegister("VerifHarness_C12_EscapePairs", VerifHarness_C12_EscapePairs)
 	vRegister("VerifHarness_C12_BinaryRoundTrip", VerifHarness_C12_BinaryRoundTrip)
+	vRegister("VerifHarness_C12_TimestampScaling", VerifHarness_C12_TimestampScaling)
 }
 
 var vC12Precisions = []string{"n", "u", "ms", "s", "m", "h"}
@@ -311,4 +312,26 @@ func VerifHarness_C12_EscapePairs() {
 	s := string(in)
 	vAssert(unescapeStringField(EscapeStringField(s)) == s, "C12.escape-stringfield-roundtrip")
 	vReach("C12.escape.end")
+}
+
+// Timestamp scaling: a timestamp given in a coarser precision is multiplied up to nanoseconds;
+// it is accepted iff the exact product lies in the representable range, and then it is that
+// product (no wrap-around is mistaken for a valid time).
+func VerifHarness_C12_TimestampScaling() {
+	prec := vC12Precisions[vChoice("precision", len(vC12Precisions))]
+	mult := GetPrecisionMultiplier(prec)
+	ts := vInt64("timestamp")
+	t, err := SafeCalcTime(ts, prec)
+	// exact bounds of the accepted range for this multiplier (concrete arithmetic)
+	lo, hi := MinNanoTime/mult, MaxNanoTime/mult
+	if lo*mult < MinNanoTime {
+		lo++
+	}
+	inRange := vAnd(ts >= lo, ts <= hi)
+	vAssert((err == nil) == inRange, "C12.scaled-timestamp-accepted-iff-representable")
+	if err == nil {
+		vAssert(t.UnixNano() == ts*mult, "C12.scaled-timestamp-is-the-exact-product")
+	}
+	vObserve("ok", err == nil)
+	vReach("C12.scaling.end")
 }
